@@ -30,6 +30,10 @@ CHECK = {
              quick={"checks": 160, "shards": 1, "cap": 600, "shrinktime": "15s"},
              thorough={"checks": 1000, "shards": 16, "cap": 2400, "shrinktime": "15s"}, no_ulimit=True,
              floors=_c13_floors(["fsm"])),
+        unit("cache-concurrent", "storagex", _C13_COMMON + ["storagex/c13_conc_test.go"], "^TestVerif_C13_CacheConcurrent$",
+             quick={"checks": 1500, "shards": 1, "cap": 600},
+             thorough={"checks": 10000, "shards": 16, "cap": 2400}, no_ulimit=True,
+             floors={"cache-concurrent": {"nontrivial": 0.08}}),
         unit("raft-listing", "raft", ["raft/c13_raft_test.go"], "^TestVerif_C13_RaftListing$",
              quick={"checks": 300, "shards": 1, "cap": 600, "shrinktime": "15s"},
              thorough={"checks": 2000, "shards": 16, "cap": 2400, "shrinktime": "15s"}, no_ulimit=True,
